@@ -777,7 +777,13 @@ def grammar_rule(rep, prog, cfg, rule="C03.grammar", only=None):
             rep.fail(rule, "%s/%s" % (cfg, variant), pc[0].loc(pc[0].span), "no alternative produces %s" % variant)
             continue
         try:
-            term = G.flatten(ex.resolve(top[1][info["index"]]))
+            alt_term = top[1][info["index"]]
+            if "sub" in info:
+                inner_top = ex.of_fn(prog.bodies[info["in"]])
+                if inner_top[0] != "alt" or info["sub"] >= len(inner_top[1]):
+                    raise G.Unsupported("nested alternative of %s is not an alt(..)" % info["in"])
+                alt_term = inner_top[1][info["sub"]]
+            term = G.flatten(ex.resolve(alt_term))
             same, wit = G.equivalent(term, G.flatten(ref))
         except G.Unsupported as e:
             rep.fail(rule, "%s/%s" % (cfg, variant), pc[0].loc(pc[0].span), "the grammar of the %s alternative cannot be decided (%s): failing closed" % (variant, e))
